@@ -116,8 +116,15 @@ class Spy(TapeCassette):
         except Exception:
             self.log.append({"c": "savefailed", "ord": n})
             raise
+        # does the cassette hand back what was saved?  (C07's round trip, observed for this very recording: a failure here
+        # is the serializer's shared-reference defect, known finding F07c)
+        try:
+            back = self.inner.get_recording(recording.id)
+            fetch_ok = canon_items(datum_list(back.recording_data.items())) == canon_items(snap)
+        except Exception as ex:      # e.g. RecursionError out of the decoder
+            fetch_ok = False
         self.log.append({"c": "save", "ord": n, "data": snap, "meta": meta,
-                         "clock": clock_info(recording.recording_metadata)})
+                         "clock": clock_info(recording.recording_metadata), "fetch_ok": fetch_ok})
 
     def _save_recording(self, recording):
         raise AssertionError("not used")
@@ -183,6 +190,18 @@ def datum_of(key, value):
     return {"d": "data", "v": from_py(value)}
 
 
+def canon_items(items):
+    def cd(d):
+        d = dict(d)
+        if "v" in d:
+            d["v"] = pv.canon_json(d["v"])
+        if "args" in d:
+            d["args"] = [pv.canon_json(x) for x in d["args"]]
+            d["kwargs"] = sorted([k, pv.canon_json(v)] for k, v in d["kwargs"])
+        return d
+    return sorted(([k, cd(d)] for k, d in items), key=lambda kd: kd[0])
+
+
 def datum_list(items):
     return [[k, datum_of(k, v)] for k, v in items]
 
@@ -212,11 +231,21 @@ def ev_args(a, kw):
     return [from_py(x) for x in a], [[k, from_py(v)] for k, v in kw.items()]
 
 
+UNSHARE = [False]
+
+
 def evaluate(e, env):
     if "lit" in e:
         return to_py(e["lit"])
     n = e["var"]
-    return env[n] if n < len(env) else None
+    v = env[n] if n < len(env) else None
+    if UNSHARE[0]:
+        # the generated program passes / returns a structurally equal COPY of the bound value, so that no mutable object
+        # is referenced twice inside one recording (tree-shaped value domain; sharing is known finding F07c)
+        j = from_py(v)
+        if '"other"' not in repr(j).replace("'", '"'):
+            return to_py(j)
+    return v
 
 
 def build_input(ctx, site):
@@ -499,6 +528,7 @@ def do_one_run(rec, spy, rng, run):
 
 
 def run_history(case):
+    UNSHARE[0] = bool(case.get("unshare"))
     inner, cleanup = make_cassette(case.get("cassette", "memory"))
     spy = Spy(inner)
     rec = TapeRecorder(spy)
